@@ -36,6 +36,7 @@ const (
 var foNames = []string{"answer", "no-answer", "error", "never", "error-after-setting-a-response"}
 
 type c20side struct {
+	SawResp bool // a response was present in the worker's query context on entry
 	Outcome int
 	Delay   time.Duration
 	Invoked bool
@@ -80,6 +81,11 @@ func c20Exec(side *c20side, who string) execFunc {
 	return func(ctx context.Context, qc *query_context.Context) error {
 		side.Invoked = true
 		side.StartAt = simrt.S.Elapsed()
+		if qc.R() != nil {
+			// the caller's context is fresh when Exec is called: a worker that finds a
+			// response on entry works on state the caller produced after the call
+			side.SawResp = true
+		}
 		defer func() { side.EndAt = simrt.S.Elapsed(); side.Ended = true }()
 		if side.Outcome == foNever {
 			simrt.Recv(0, ctx.Done())
@@ -189,6 +195,13 @@ func c20Main(rc *RunCtx) {
 					}
 				}
 			}
+			if err != nil && simrt.Choose(2) == 0 {
+				// the call failed: the caller goes on with its query context, as the
+				// server does when it answers SERVFAIL (workers may still be running)
+				m := new(dns.Msg)
+				m.SetRcode(q, dns.RcodeServerFailure)
+				qCtx.SetResponse(m)
+			}
 			pd.respAtReturn = qCtx.R()
 			if cancel != nil {
 				// the caller's context ends when the caller is done with the call
@@ -217,6 +230,10 @@ func c20Main(rc *RunCtx) {
 				}
 			}
 			rc.Fail("response_changed_after_return", "Exec returned (from=%q err=%v) and later the caller's query context holds the answer from=%q: a worker wrote to the caller's context after the call ended", cl.who, cl.err, whoLater)
+			break
+		}
+		if cl.p.SawResp || cl.s.SawResp {
+			rc.Fail("worker_started_on_callers_later_state", "a worker (primary=%v secondary=%v) found a response in its query context on entry: its copy was taken after Exec had returned (err=%v) and the caller had gone on with the context", cl.p.SawResp, cl.s.SawResp, cl.err)
 			break
 		}
 		c20Check(rc, c, cl, T)
